@@ -37,6 +37,7 @@ def specs(tier):
              extra_monitors=(FM, MM), clauses=('C03', 'C04', 'C10', 'C20')),
            J('m-steady3-fb1.5p:H1M1X2', 'steady', dict(n=3, dyn=True, fallback=0.015, exact_time=True), dict(H=1, M=1, X=2), dict(k=0),
              extra_monitors=(FM, MM), clauses=('C03', 'C04', 'C10', 'C20'))]
+    js += [J('latevote5-fb3.5p:H4', 'late_vote5', dict(n=5, fallback=0.035, exact_time=True), dict(H=4), dict())]
     js += [J('steady4-fb3.5p:F1X2', 'steady', dict(n=4, fallback=0.035, exact_time=True), dict(F=1, X=2), dict(k=0)),
            J('obs1-steady2-fb1.5p:H3X2', 'steady', dict(n=2, observers=1, fallback=0.015, exact_time=True), dict(H=3, X=2), dict(k=0)),
            J('split4-fb3.5p:F1E2', 'split', dict(n=4, fallback=0.035, exact_time=True), dict(F=1, E=2), dict(k=0)),
